@@ -255,7 +255,7 @@ func (r *runner) doReq(st *Step) {
 		w.log.Emit(M{"ev": "skip", "x": x, "why": "url: " + err.Error()})
 		return
 	}
-	e := &exchange{x: x, gid: gid(), ans: st.Ans, faults: st.Faults, open: true, hdr: req.Header.Clone()}
+	e := &exchange{x: x, gid: gid(), ans: st.Ans, faults: st.Faults, open: true, hdr: req.Header.Clone(), cancel: st.Cancel}
 	w.mu.Lock()
 	w.ex[x] = e
 	w.mu.Unlock()
@@ -366,15 +366,23 @@ func (r *runner) doReq(st *Step) {
 			}
 			// the background revalidation of this very exchange only affects later ones
 			for _, t304 := range w.bg304[x] {
-				if !noStore(t304) {
+				if w.lateTag[t304] {
+					w.fuzzy[tok] = true
+				} else if !noStore(t304) {
 					w.apply304(tok, t304)
 				}
+			}
+			if w.fuzzy[tok] {
+				want = nil
 			}
 			delete(w.bg304, x)
 			w.servedX[x] = tok
 		}
 		w.mu.Unlock()
-		if sr != nil {
+		if sr != nil && want == nil {
+			ev["bodyok"] = b2i(string(body) == string(sr.body))
+			ev["stsame"] = b2i(resp.StatusCode == sr.status)
+		} else if sr != nil {
 			ev["bodyok"] = b2i(string(body) == string(sr.body))
 			// end-to-end header comparison against the response it was stored
 			// from, with fields replaced by the 304s that freshened it since
@@ -493,12 +501,16 @@ func RunScenario(t *testing.T, sc *Scenario, log *EventLog, seed int64, workDir 
 			switch st.Op {
 			case "req":
 				r.doReq(st)
+				// background work that is due now runs before the scenario goes on, so that a
+				// sequential scenario is sequential (overlap is the business of "conc" steps)
+				synctest.Wait()
 			case "tick":
 				d := time.Duration(st.D) * time.Second
 				if st.D >= CAP {
 					d = time.Duration(1<<31+w.rnd.Intn(100000)) * time.Second
 				}
 				time.Sleep(d)
+				synctest.Wait()
 				log.Emit(M{"ev": "tick", "d": st.D, "t": w.now()})
 			case "conc":
 				// the requests of this step are issued concurrently on the one transport
